@@ -411,19 +411,18 @@ public:
 
       ++m;
 
+      // fill the gap with the last nonzeros; the vector shrinks by the number of removed nonzeros
       int cpy = m - n;
+      int newsize = size() - cpy;
       cpy = (size() - m >= cpy) ? cpy : size() - m;
 
       Nonzero<R>* e = &m_elem[size() - 1];
       Nonzero<R>* r = &m_elem[n];
 
-      set_size(size() - cpy);
+      set_size(newsize);
 
-      do
-      {
+      while(cpy-- > 0)
          *r++ = *e--;
-      }
-      while(--cpy);
    }
 
    /// Remove \p n 'th nonzero.
